@@ -77,11 +77,14 @@ theorem list_fields_covered :
     (∀ f ∈ ["VersionID", "ETag"], f ∈ fieldsOf "CompleteMultipartUpload" "CompleteMultipartUploadResult") ∧
     (∀ f ∈ ["VersionID", "ETag"], f ∈ fieldsOf "CopyObject" "result.*") := by decide
 
-/-- Negation witnesses (current source): the PutObject translation neither returns the version id
-nor forwards the tag set, and GetObject's HeadObject pre-flight is made without the version id. -/
-theorem put_object_result_lacks_version_id : "VersionID" ∉ fieldsOf "PutObject" "PutObjectResult" := by decide
-theorem put_object_does_not_forward_tags : "Tagging" ∉ putObjectInputFields := by decide
-theorem get_object_preflight_ignores_version : getObjectHeadOptions = "nil" := by decide
+/-- Since /repo commit a758c2b the PutObject translation returns the version id and forwards the tag
+set, and GetObject's HeadObject pre-flight addresses the requested version (before, each of the three
+was a recorded deviation). -/
+theorem put_object_result_has_version_id : "VersionID" ∈ fieldsOf "PutObject" "PutObjectResult" := by decide
+theorem put_object_forwards_tags : "Tagging" ∈ putObjectInputFields := by decide
+theorem get_object_preflight_uses_version : getObjectHeadOptions ≠ "nil" := by decide
+
+/-- Negation witness (current source): AppendObject is not implemented by the client backend. -/
 theorem append_not_implemented : ("AppendObject", "always") ∈ notImplemented := by decide
 
 end Pithos.C38
